@@ -81,3 +81,4 @@ func DeepEq(a, b interface{}) bool { return false }
 func Trace(label string, v interface{}) {}
 func StrContains(a, b string) bool { return false }
 func Rollback(snap int) {}
+func DeclareEmptyStore(name string) {}
